@@ -33,6 +33,9 @@ def run(ctx: Ctx, chk) -> None:
     chk.run_rule(tasks1, ctx)
     chk.run_rule(save_total, ctx)
     chk.run_rule(disc1, ctx)
+    from . import connleak
+
+    chk.run_rule(connleak.conn_leak, ctx)
 
 
 def _calls(g: CFG, pred):
